@@ -105,7 +105,7 @@ func init() {
 				R.decide("C02.a", "gabi.createChallenge:issig", "the signature-session flag is passed to HashCommit unchanged", desc(callArgs(hc)[1]) == "arg#3", "got "+desc(callArgs(hc)[1]), P.Pos(hc.Pos()))
 				retOK := true
 				for _, r := range returnsOf(fn) {
-					if len(r.Results) != 1 || siteOf(r.Results[0]) != ssa.Value(hc) {
+					if retCount(r) != 1 || siteOf(retValue(r, 0)) != ssa.Value(hc) {
 						retOK = false
 					}
 				}
